@@ -50,6 +50,36 @@ def split_goal(g, depth=0):
     return [g]
 
 
+def _summands(e):
+    if z3.is_add(e):
+        return [y for c in e.children() for y in _summands(c)]
+    return [e]
+
+
+def peel_last(g):
+    """goal-side only:  (forall q. lo <= q < X + 1 -> phi(q))  ==  (forall q. lo <= q < X -> phi(q))  and  (lo <= X -> phi(X)).
+    The second conjunct is the *ground* instance at the new index of a loop-extended range: its terms are exactly those the
+    loop body produced, so E-matching has something to work with (otherwise the solver must guess q == X by arithmetic)."""
+    if not (z3.is_quantifier(g) and g.is_forall() and g.num_vars() == 1 and g.var_sort(0).kind() == z3.Z3_INT_SORT):
+        return [g]
+    q = z3.Const(g.var_name(0), g.var_sort(0))
+    body = z3.substitute_vars(g.body(), q)
+    if not (z3.is_implies(body) and z3.is_and(body.arg(0))):
+        return [g]
+    guard = list(body.arg(0).children())
+    hi = None
+    for c in guard:
+        if z3.is_lt(c) and c.arg(0).eq(q) and z3.is_add(c.arg(1)) and any(z3.is_int_value(x) and x.as_long() >= 1 for x in _summands(c.arg(1))):
+            hi = c
+    if hi is None or any((not c.eq(hi)) and not ((z3.is_le(c) and c.arg(1).eq(q)) or (z3.is_ge(c) and c.arg(0).eq(q))) for c in guard):
+        return [g]
+    X = z3.simplify(hi.arg(1) - 1)
+    rest = [c for c in guard if not c.eq(hi)]
+    g1 = z3.ForAll([q], z3.Implies(z3.And(rest + [q < X]), body.arg(1)))
+    g2 = z3.Implies(z3.And([z3.substitute(c, (q, X)) for c in rest]) if rest else z3.BoolVal(True), z3.substitute(body.arg(1), (q, X)))
+    return [g1, g2]
+
+
 def py_floordiv(a, b):
     return z3.If(b > 0, a / b, (-a) / (-b))
 
@@ -73,6 +103,8 @@ class EvalMixin:
             self.trivial += 1
         where = getattr(node, 'lineno', None)
         parts = split_goal(goal) if FINITE['K'] is None else [goal]
+        if FINITE['K'] is None and kind == 'invariant' and ':inv-preserved' in label:
+            parts = [y for x in parts for y in peel_last(x)]
         if len(parts) == 1:
             self.obligations.append(Ob(label, st.pc, goal, kind, tuple(st.path), where, self.current_fn, dict(st.env), dict(st.store)))
         else:
